@@ -564,9 +564,9 @@ func isRequiredErr(err error) bool {
 }
 
 func buildC17(tier string) *core.Plan {
-	n := 4
+	n, n3l := 4, 3
 	if tier == "thorough" {
-		n = 5
+		n, n3l = 6, 4
 	}
 	a := gen.Alphabet{Scalars: []any{1, "x", "$required"}, Keys: []string{"a", "b"}, MaxList: 3, MaxMap: 2}
 	trees := gen.Filter(gen.Trees(a, n), gen.IsMap)
@@ -579,7 +579,7 @@ func buildC17(tier string) *core.Plan {
 	two := core.Space{Name: "two-layers", N: ns * ns,
 		Desc: func(i int64) any { return []any{small[i/ns], small[i%ns]} },
 		Run:  func(c *core.Ctx, i int64) { c17Check(c, []any{small[i/ns], small[i%ns]}) }}
-	tiny := gen.Filter(gen.Trees(a, 3), gen.IsMap)
+	tiny := gen.Filter(gen.Trees(a, n3l), gen.IsMap)
 	n3 := int64(len(tiny))
 	three := core.Space{Name: "three-layers", N: n3 * n3 * n3,
 		Desc: func(i int64) any { return []any{tiny[i/(n3*n3)], tiny[(i/n3)%n3], tiny[i%n3]} },
